@@ -113,4 +113,34 @@ def imod (a b : Int) : Option Int := if b = 0 then none else some (Int.tmod a b)
 def udiv (a b : Nat) : Option Nat := if b = 0 then none else some (a / b)
 def umod (a b : Nat) : Option Nat := if b = 0 then none else some (a % b)
 
+/-! ### facts about `loop` for the equivalence proofs (no definitions below this line are used by generated text) -/
+
+/-- a body that never returns nor breaks: the loop is the fold of its state function -/
+theorem loop_next {α σ ρ : Type} (f : σ → α → σ) (body : σ → α → Step ρ σ) (xs : List α) (s : σ)
+    (h : ∀ s x, x ∈ xs → body s x = .next (f s x)) : loop xs s body = Sum.inr (xs.foldl f s) := by
+  induction xs generalizing s with
+  | nil => rfl
+  | cons x r ih =>
+    have hx : body s x = .next (f s x) := h s x (by simp)
+    simp only [loop, hx, List.foldl_cons]
+    exact ih (f s x) (fun s' y hy => h s' y (by simp [hy]))
+
+/-- a body that either fails with the same value `r0` (a panic) or goes on: the loop is the option-fold of its step function -/
+theorem loop_step {α σ ρ : Type} (step : σ → α → Option σ) (r0 : ρ) (body : σ → α → Step ρ σ) (xs : List α) (s : σ)
+    (h : ∀ s x, x ∈ xs → body s x = (match step s x with | none => .ret r0 | some s' => .next s')) :
+    loop xs s body = (match xs.foldlM step s with | none => Sum.inl r0 | some s' => Sum.inr s') := by
+  induction xs generalizing s with
+  | nil => rfl
+  | cons x r ih =>
+    have hx := h s x (by simp)
+    cases hs : step s x with
+    | none => simp [loop, hx, hs, List.foldlM]
+    | some s' =>
+      simp only [loop, hx, hs, List.foldlM_cons, Option.bind_eq_bind, Option.bind_some]
+      exact ih s' (fun s'' y hy => h s'' y (by simp [hy]))
+
+theorem upto_eq (a : Int) (n : Nat) : upto a (a + n) = (List.range n).map fun k => a + Int.ofNat k := by
+  have h : (a + (n : Int) - a).toNat = n := by omega
+  simp [upto, h]
+
 end Gen.Rt
